@@ -31,9 +31,11 @@ UNITS = {
     "C07": [
         {"name": "C07_INP", "test": "TestC07_INP", "quick": 240, "thorough": 10000, "shards": 8},
         {"name": "C07_BIN", "test": "TestC07_BIN", "quick": 60, "thorough": 2000, "shards": 4, "bin": True},
+        {"name": "C07_RACE", "test": "TestC07_RACE", "quick": 40, "thorough": 600, "shards": 4, "bin": True, "race": True},
     ],
     "C08": [
         {"name": "C08_INP", "test": "TestC08_INP", "quick": 3000, "thorough": 60000, "shards": 16},
+        {"name": "C08_SETTLE", "test": "TestC08_SETTLE", "quick": 600, "thorough": 12000, "shards": 4},
     ],
     "C09": [
         {"name": "C09_RACE", "test": "TestC09_RACE", "quick": 60, "thorough": 6000, "shards": 6, "bin": True, "race": True, "budget_quick": 900},
